@@ -230,7 +230,8 @@ class Mirror(Obligation):
                        'grid = wave positions + the fan nodes' % (pattern, n, n + 2))
         self.skip_validation = True
         self.allow_vacuous = True
-        self.max_paths = 400
+        self.max_paths = 8          # one or two paths on correct code; a change that breaks the symmetry also breaks the
+                                    # order chains and multiplies the paths: decide the claims on the first few
         self.timeout_s = 30
         self.budget_s = 900
         self.hard_timeout_s = 1500
